@@ -11,6 +11,7 @@ import GoBT.Interp.Dispatch
 import GoBT.Gen.Opcodes
 import GoBT.Gen.Limits
 import GoBT.Interp.NumLemmas
+import GoBT.Interp.NoPanicMain
 namespace GoBT.C05
 open GoBT GoBT.Interp GoBT.Script
 
@@ -204,5 +205,26 @@ theorem add_sub_mul_exact (env : Env) (cur : List POp) (off : Nat) (s : St) (a b
 example : decodeNum (encodeNum (-255)) = -255 ∧ encodeNum 128 = [0x80, 0x00] ∧ encodeNum (-128) = [0x80, 0x80] ∧
     decodeNum [0xff, 0xff, 0xff, 0xff, 0x80] = -4294967295 ∧ minimallyEncode [0x01, 0x00, 0x80] = [0x81] := by
   decide
+
+/-- **The parser's nesting count is the run-time depth of the conditional stack.**  Scanning for a top-level
+    OP_RETURN, the parser adds one for OP_IF / OP_NOTIF and subtracts one for OP_ENDIF — exactly what executing the
+    opcode does to the conditional stack (`executeOpcode_cond`), for every opcode byte; in particular the reserved
+    words OP_VERIF / OP_VERNOTIF open nothing.  So "top-level" means the same thing to the parser and to the run. -/
+theorem parser_depth_is_runtime_depth (b : UInt8) (d : Int) : depthStep b d = d + rtDelta b.toNat := by
+  by_cases h63 : b.toNat = 0x63
+  · have e := uint8_eq_of_toNat (by decide) h63; subst e
+    simp [rtDelta, depthStep, Script.isCondOpen]
+  by_cases h64 : b.toNat = 0x64
+  · have e := uint8_eq_of_toNat (by decide) h64; subst e
+    simp [rtDelta, depthStep, Script.isCondOpen]
+  by_cases h68 : b.toNat = 0x68
+  · have e := uint8_eq_of_toNat (by decide) h68; subst e
+    simp [rtDelta, depthStep, Script.isCondOpen, opENDIF]
+    omega
+  · have hne : b ≠ opENDIF := by
+      intro e; subst e; exact h68 rfl
+    have h1 : b ≠ 0x63 := by intro e; subst e; exact h63 rfl
+    have h2 : b ≠ 0x64 := by intro e; subst e; exact h64 rfl
+    simp [rtDelta, h63, h64, h68, depthStep, hne, Script.isCondOpen, h1, h2]
 
 end GoBT.C05
